@@ -26,7 +26,10 @@ def _run_job(args):
                     meta={k: (cfg[k] if cfg[k] is not None else 'none') for k in ('P', 'kind', 'NP', 'NL', 'pred', 'jac', 'nsweeps')})
     except Exception as e:  # noqa
         import traceback
-        return dict(id=cid, error=f'{type(e).__name__}: {e} {traceback.format_exc()[-400:]}', cfg=cfg)
+        # an error raised by pySDC itself on a legal configuration is an outcome of the run (these configurations have nilpotent
+        # operators: no solve is singular, every variant converges); anything else is a failure of the harness
+        lib = type(e).__module__.startswith('pySDC')
+        return dict(id=cid, error=f'{type(e).__name__}: {e} {traceback.format_exc()[-400:]}', cfg=cfg, library_error=type(e).__name__ if lib else None)
 
 
 def family(rng, P):
@@ -74,6 +77,8 @@ def family(rng, P):
             Rc[-1] = [0] * (Mf - 1) + [1]
             t['Rc'] = Rc
             t['Pc'] = [[rng.randrange(P) for _ in range(Mc)] for _ in range(Mf)]
+        if not f0['rightnode'] and v['NL'] > 1 and v['NP'] > 1:
+            v['NP'] = 1  # PFASST needs the right end point as a node; the multi-level variant of such a problem is MLSDC
         v['u_init'] = list(base['u_init'])
         v['nsteps'] = base['nsteps']
         fam.append(v)
@@ -106,8 +111,10 @@ def run(tier, seed):
                 cfgs += family(rng, rng.choice([3, 5]))
             out = pool.map(_run_job, [(i + 1, cfg) for i, cfg in enumerate(cfgs)], chunksize=4)
             errs = [o for o in out if 'error' in o]
-            for e in errs[:5]:
+            for e in [x for x in errs if not x.get('library_error')][:5]:
                 rep.machinery.append('run failed: ' + e['error'])
+            for e in [x for x in errs if x.get('library_error')]:
+                rep.violation('run.unexpected_error', dict(kind='run', what='the run raised ' + e['library_error'], detail=e['error'][:300], cfg=e['cfg']))
             cases = [o for o in out if 'error' not in o]
             byP = {}
             for cse in cases:
